@@ -233,6 +233,45 @@ Fixpoint run_flow (s : sim) (fl : list (list item)) : sim * list (list (outcome 
 (** a new state with a new TPM *)
 Definition sim0 : sim := mkSim fresh [].
 
+(** * Boots on a TPM object that served earlier boots *)
+
+(** How the [*tpm.TPM] of a boot was obtained: [NewTPM()], or the object of the
+    earlier boots recycled with [Reset()], with [DoNotUse_ResetNoInit()], or
+    (pcrbruteforcer.replayTPMCommands) with [DoNotUse_ResetNoInit()] followed
+    by a direct assignment [tpm.SupportedAlgos = SupportedHashAlgos()] *)
+Inductive reuse := RNew | RReset | RResetNoInit | RResetNoInitAlgos.
+
+Definition set_algos (t : state) (al : list Z) : state :=
+  mkState al (pcrs t) (cmdlog t) (evlog t).
+
+(** the object a boot starts on; [prev] is the object as the earlier boots left it *)
+Definition recycle (prev : state) (r : reuse) : state :=
+  match r with
+  | RNew => fresh
+  | RReset => fst (step H prev Reset)
+  | RResetNoInit => fst (step H prev ResetNoInit)
+  | RResetNoInitAlgos => set_algos (fst (step H prev ResetNoInit)) supported
+  end.
+
+(** ... which does not depend on [prev] (Proofs/BootSim.v [recycle_start]; one
+    level lower, where the PCR buffers of [prev] are physically re-used,
+    Proofs/BootSimSlices.v) *)
+Definition start_of (r : reuse) : state :=
+  match r with RResetNoInit => blank | _ => fresh end.
+
+(** a new (or reset) State whose TPM is that object *)
+Definition boot_start (r : reuse) : sim := mkSim (start_of r) [].
+
+(** a session: boots on ONE TPM object, each with its own State *)
+Fixpoint run_boots (prev : state) (bs : list (reuse * list (list item)))
+  : list (sim * list (list (outcome unit))) :=
+  match bs with
+  | [] => []
+  | (r, fl) :: rest =>
+      let res := run_flow (mkSim (recycle prev r) []) fl in
+      res :: run_boots (s_tpm (fst res)) rest
+  end.
+
 (** * Re-executing a command log *)
 
 (** [tpm.Commands.Apply]: [cmd.Apply] one by one (nothing is logged), stopping
@@ -280,6 +319,7 @@ Arguments mkSim {ref}.
 Arguments s_tpm {ref}.
 Arguments s_meas {ref}.
 Arguments sim0 {ref}.
+Arguments boot_start {ref}.
 
 (** * The event log as the two replay routines see it *)
 
